@@ -277,6 +277,34 @@ pub fn c11(opts: &Opts) -> Report {
             ctx.rep.nontrivial(&(which, in_map, s.clone()));
             ctx.rep.bump(&format!("op_{}_{}", op.name(), if in_map { "map" } else { "top" }));
             ctx.rep.bump(if s.is_ascii() { "arg_ascii" } else { "arg_non_ascii" });
+            // 0a. the same operation twice in a row with two different arguments: each acts in its place
+            if i % 9 == 4 && !x.contains('\n') {
+                let s2: String = if ctx.rng.chance(1, 2) { gens::simple_arg(&mut ctx.rng) } else { format!("{}é", gens::word(&mut ctx.rng)) };
+                let e2 = esc(&s2);
+                for (kw, want) in [("prepend", format!("{s2}{s}{x}")), ("append", format!("{x}{s}{s2}")), ("surround", format!("{s2}{s}{x}{s}{s2}"))] {
+                    let want = if mixed { format!("<{want}>") } else { want };
+                    let t2 = wrap(format!("{kw}:{e}|{kw}:{e2}"));
+                    let got = real::parse_format(&t2, &x);
+                    ctx.rep.bump("same_operation_twice");
+                    if got != Out::Ok(want.clone()) {
+                        viol(ctx, "property", format!("C11: format({t2:?}, {x:?}) = {} but the two arguments, applied one after the other, give {want:?}", got.show()),
+                             vec![("template", t2), ("input", x.clone()), ("observed", got.show()), ("expected", want), ("theorem", "C11_arguments_reach_the_operation".into())]);
+                        return;
+                    }
+                }
+            }
+            // 0. the section next to a near-duplicate of itself (one letter case changed) in one template
+            if !in_map && !mixed && i % 3 == 1 {
+                let op1 = vec![op.clone()];
+                let xx = if matches!(op, Op::Join(_) | Op::Split(..)) { "a,b" } else { x.as_str() };
+                let ops_nd: Vec<Op> = match &op { Op::Join(_) => vec![Op::Split(",".into(), Range::Range(None, None, false)), op.clone()], _ => op1 };
+                ctx.rep.bump("near_duplicate_section_templates");
+                if let Some((t3, whole, parts)) = super::templates::near_duplicate_sections_disagree(&ops_nd, xx) {
+                    viol(ctx, "property", format!("C11: format({t3:?}, {xx:?}) = {} but its sections, each formatted alone, give {}", whole.show(), parts.show()),
+                         vec![("template", t3), ("input", xx.to_string()), ("observed", whole.show()), ("expected", parts.show()), ("theorem", "C11_arguments_reach_the_operation / C04_compose".into())]);
+                    return;
+                }
+            }
             // 1. structure
             match real::parse(&text) {
                 real::Parsed::Ok(tpl) => {
